@@ -385,7 +385,7 @@ class SxFloatType(metaclass=_ShimMeta):
 
     @staticmethod
     def _check(x):
-        return _isinstance(x, (builtins.float, SxReal))
+        return _isinstance(x, (builtins.float, SxReal)) or type(x).__name__ == 'FloatTok'
 
 
 SxFloatType.__name__ = 'float'
@@ -410,8 +410,8 @@ def sx_isinstance(x, t):
         elif c is builtins.bool:
             if _isinstance(x, (builtins.bool, SxBool)):
                 return True
-        elif c is builtins.float:
-            if _isinstance(x, (builtins.float, SxReal)):
+        elif c is builtins.float or c is SxFloatType:
+            if _isinstance(x, (builtins.float, SxReal)) or type(x).__name__ == 'FloatTok':
                 return True
         elif c is SxDict or c is builtins.dict:
             if _isinstance(x, (SxDict, builtins.dict)):
@@ -584,6 +584,9 @@ from . import text as _text  # noqa: E402
 
 register_shim(builtins.str, _text.SxStr)
 TYPE_MAP[_text.Text] = _text.SxStr
+
+from .floats import FloatTok as _FloatTok  # noqa: E402
+TYPE_MAP[_FloatTok] = SxFloatType
 
 SHIM_BUILTINS = {
     'str': _text.SxStr,
